@@ -44,7 +44,41 @@ def files():
     adp.section('Tabulation')[1][0][1] = 'eam_adp'
     adp.sections.append(['EAM-ADP-Dipole', [['A-A', '>=0 as.polynomial 0.5 -0.2 0.01'], ['A-B', '>=0 as.polynomial 0.6 -0.2 0.01']]])
     adp.sections.append(['EAM-ADP-Quadrupole', [['B-B', '>=0 as.morse 0.75 1.3 0.2'], ['C-A', '>=0 as.morse 0.85 1.3 0.21']]])
-    return {'pair': pair, 'eam': eam, 'fs': fs, 'adp': adp}
+    out = {'pair': pair, 'eam': eam, 'fs': fs, 'adp': adp}
+    # the same files with labels one of which is a prefix of the next (H, He, Hes; unknown Hx) and with charged labels (Ce3+, Ce4+; unknown Ce)
+    for tag, mp in LABEL_MAPS.items():
+        for base in ('pair', 'eam', 'fs'):
+            out['%s_%s' % (base, tag)] = relabel(out[base], mp)
+    return out
+
+
+LABEL_MAPS = {'prefix': {'A': 'H', 'B': 'He', 'C': 'Hes', 'X': 'Hx'}, 'charged': {'A': 'Ce3+', 'B': 'Ce4+', 'C': 'O', 'X': 'Ce'}}
+
+
+def relabel(ini, mp):
+    out = ini.copy()
+    for sec in out.sections:
+        for kv in sec[1]:
+            k = kv[0]
+            if sec[0] in ('Pair', 'EAM-ADP-Dipole', 'EAM-ADP-Quadrupole'):
+                kv[0] = '-'.join(mp[x] for x in k.split('-'))
+            elif sec[0] == 'EAM-Embed':
+                kv[0] = mp[k]
+            elif sec[0] == 'EAM-Density':
+                kv[0] = '->'.join(mp[x] for x in k.split('->'))
+            elif sec[0] == 'Species':
+                a, b = k.split('.', 1)
+                kv[0] = '%s.%s' % (mp[a], b)
+    return out
+
+
+def base_of(fname):
+    return fname.split('_')[0]
+
+
+def species_of(fname, S):
+    mp = LABEL_MAPS.get(fname.split('_')[1], {}) if '_' in fname else {}
+    return [mp.get(x, x) for x in S]
 
 
 FILTERS = [(mode, s) for mode in ('include', 'exclude') for s in ([], ['A'], ['A', 'B'], ['A', 'B', 'C'], ['A', 'X'], ['X'])]
@@ -97,9 +131,14 @@ def cases(tier):
             if nv == 1 and len(h) <= 3:
                 out.append(dict(kind='history', file=fname, ops=h, container='tuple'))
                 out.append(dict(kind='history', file=fname, ops=h, container='iterator'))
-    for fname in ('pair', 'eam', 'fs', 'adp'):
+    short = [h for h in hs if len(h) <= 3 and any(op[0] in 'RT' for op in h)]
+    extra = ['%s_%s' % (b, t) for t in LABEL_MAPS for b in ('pair', 'eam', 'fs')]
+    for fname in extra:
+        for h in short:
+            out.append(dict(kind='history', file=fname, ops=h, container='fresh'))
+    for fname in ['pair', 'eam', 'fs', 'adp'] + extra:
         for fi in range(len(FILTERS)):
-            for tgt in TARGETS[fname]:
+            for tgt in TARGETS[base_of(fname)]:
                 out.append(dict(kind='cli', file=fname, filter=fi, target=tgt))
     return out
 
@@ -134,9 +173,9 @@ def reference(fname, fi):
         edited = get_file(fname)
         for f_ in chain:
             mode, S = FILTERS[f_]
-            edited = filter_species(edited, S, mode == 'exclude')
+            edited = filter_species(edited, species_of(fname, S), mode == 'exclude')
         cp = ConfigParser(io.StringIO(edited.render()))
-        lists = {a: getattr(cp, a) for a in ATTRS[fname]}
+        lists = {a: getattr(cp, a) for a in ATTRS[base_of(fname)]}
         _refcache[key] = (lists, tabulate(cp), edited)
     return _refcache[key]
 
@@ -156,6 +195,7 @@ def run_history(case):
         trans += 1
         if op[0] in 'VN':
             mode, S = FILTERS[op[-1]]
+            S = species_of(fname, S)
             if kind == 'shared':
                 shared[:] = list(S)
                 cont = shared
@@ -175,7 +215,7 @@ def run_history(case):
             mode, S = 'chain', [FILTERS[x] for x in vf[j]]
             read[j] = 1
             if op[0] == 'R':
-                for a in ATTRS[fname]:
+                for a in ATTRS[base_of(fname)]:
                     got = getattr(views[j], a)
                     if got != lists[a]:
                         others = [FILTERS[x] for i, x in enumerate(vf) if i != j]
@@ -218,6 +258,7 @@ def describe(ops):
 def run_cli(case):
     fname, fi, tgt = case['file'], case['filter'], case['target']
     mode, S = FILTERS[fi]
+    S = species_of(fname, S)
     ini = get_file(fname).copy()
     ini.section('Tabulation')[1][0][1] = tgt
     if tgt == 'DLPOLY':
